@@ -36,6 +36,7 @@ static inline int spec_pos_of(int b, int id)   /* old position of id in bucket b
 #define FOUND(id) (spec_pos_of(g_key_a, (id)) >= 0)
 #define RENUM(x, d) ((x) > (d) ? (x) - 1 : (x))
 
+#if !defined(H_insert) && !defined(H_replace)
 /* ---- delete: entry removed, later ids renumbered, order kept, nothing else touched ---- */
 int ncmpio_hash_delete(NC_nametable *nameT, int hash_size, const char *name, int id)
 __CPROVER_requires(hash_size == HS && name == g_name_a && g_key_a >= 0 && g_key_a < HS && GB >= 0 && GB < HS && GP >= 0 && GP < old_num[GB])
@@ -50,6 +51,37 @@ __CPROVER_ensures(IMPLIES(FOUND(id) && !(GB == g_key_a && old_list[GB][GP] == id
       nameT[GB].list[GP - ((GB == g_key_a && GP > spec_pos_of(g_key_a, id)) ? 1 : 0)] == RENUM(old_list[GB][GP], id))) /*@other_entries_kept_in_order_and_renumbered*/
 __CPROVER_ensures(IMPLIES(FOUND(id) && nameT[GB].num == 0, nameT[GB].list == NULL)) /*@empty_bucket_released*/
 ;
+
+#endif
+#ifdef H_insert
+/* ---- insert: id appended to the bucket of its name, every existing entry untouched ---- */
+void ncmpio_hash_insert(NC_nametable *nameT, int hash_size, const char *name, int id)
+__CPROVER_requires(hash_size == HS && name == g_name_a && g_key_a >= 0 && g_key_a < HS && GB >= 0 && GB < HS && GP >= 0 && (GP < old_num[GB] || old_num[GB] == 0))
+__CPROVER_assigns(__CPROVER_object_whole(nameT))
+__CPROVER_assigns(nameT[0].list != NULL: __CPROVER_object_whole(nameT[0].list))
+__CPROVER_assigns(nameT[1].list != NULL: __CPROVER_object_whole(nameT[1].list))
+__CPROVER_frees(nameT[0].list, nameT[1].list)
+__CPROVER_ensures(nameT[g_key_a].num == old_num[g_key_a] + 1 && nameT[g_key_a].list[old_num[g_key_a]] == id) /*@appended_to_bucket_of_its_name*/
+__CPROVER_ensures(nameT[1 - g_key_a].num == old_num[1 - g_key_a]) /*@other_bucket_count_unchanged*/
+__CPROVER_ensures(IMPLIES(old_num[GB] > 0, nameT[GB].list[GP] == old_list[GB][GP])) /*@existing_entries_untouched*/
+;
+#endif
+#ifdef H_replace
+/* ---- replace (rename): id leaves the bucket of the old name, is appended to the bucket of the new name; nothing renumbered ---- */
+int ncmpio_hash_replace(NC_nametable *nameT, int hash_size, const char *old_name, const char *new_name, int id)
+__CPROVER_requires(hash_size == HS && old_name == g_name_a && new_name == g_name_b && g_key_a >= 0 && g_key_a < HS && g_key_b >= 0 && g_key_b < HS && GB >= 0 && GB < HS && GP >= 0 && (GP < old_num[GB] || old_num[GB] == 0))
+__CPROVER_assigns(__CPROVER_object_whole(nameT))
+__CPROVER_assigns(nameT[0].list != NULL: __CPROVER_object_whole(nameT[0].list))
+__CPROVER_assigns(nameT[1].list != NULL: __CPROVER_object_whole(nameT[1].list))
+__CPROVER_frees(nameT[0].list, nameT[1].list)
+__CPROVER_ensures(IFF(__CPROVER_return_value == NC_NOERR, FOUND(id)) && (__CPROVER_return_value == NC_NOERR || __CPROVER_return_value == NC_ENOTATT)) /*@found_iff_in_bucket_of_old_name*/
+__CPROVER_ensures(IMPLIES(!FOUND(id), nameT[GB].num == old_num[GB] && IMPLIES(old_num[GB] > 0, nameT[GB].list[GP] == old_list[GB][GP]))) /*@not_found_changes_nothing*/
+__CPROVER_ensures(IMPLIES(FOUND(id), nameT[GB].num == old_num[GB] - (GB == g_key_a ? 1 : 0) + (GB == g_key_b ? 1 : 0))) /*@one_entry_leaves_old_bucket_one_enters_new_bucket*/
+__CPROVER_ensures(IMPLIES(FOUND(id), nameT[g_key_b].list[nameT[g_key_b].num - 1] == id)) /*@id_findable_under_new_name*/
+__CPROVER_ensures(IMPLIES(FOUND(id) && old_num[GB] > 0 && !(GB == g_key_a && old_list[GB][GP] == id),
+      nameT[GB].list[GP - ((GB == g_key_a && GP > spec_pos_of(g_key_a, id)) ? 1 : 0)] == old_list[GB][GP])) /*@other_entries_kept_in_order_same_ids*/
+;
+#endif
 
 static NC_nametable tab[HS];
 void harness(void)
@@ -68,9 +100,18 @@ void harness(void)
             tab[b].list[p] = IN_id[n]; old_list[b][p] = IN_id[n]; n++;
         }
     }
-    __CPROVER_assume(GB >= 0 && GB < HS && GP >= 0 && GP < NBv[GB]);
+    __CPROVER_assume(GB >= 0 && GB < HS && GP >= 0 && (GP < NBv[GB] || (NBv[GB] == 0 && GP == 0)));
     __CPROVER_assume(IN_del >= 0 && IN_del < NOBJ + 1);
+#if defined(H_insert)
+    ncmpio_hash_insert(tab, HS, na, IN_del);
+    CANARY(tab[g_key_a].num == 1, "first_in_bucket"); CANARY(tab[g_key_a].num == 5, "list_grown");
+#elif defined(H_replace)
+    int r = ncmpio_hash_replace(tab, HS, na, nb, IN_del);
+    CANARY(r == NC_NOERR && g_key_a != g_key_b, "moved_to_other_bucket"); CANARY(r == NC_NOERR && g_key_a == g_key_b, "same_bucket"); CANARY(r == NC_ENOTATT, "not_found");
+    CANARY(r == NC_NOERR && tab[g_key_a].num == 0, "bucket_emptied");
+#else
     int r = ncmpio_hash_delete(tab, HS, na, IN_del);
     CANARY(r == NC_NOERR, "deleted"); CANARY(r == NC_ENOTATT, "not_found");
     CANARY(r == NC_NOERR && tab[g_key_a].num == 0, "bucket_emptied");
+#endif
 }
